@@ -904,7 +904,7 @@ func (ex *Ex) trCall(env *Env, e *Expr) (SV, error) {
 		return SV{T: Not(App("alloc0", SBool, args[0].T)), Ty: tBool}, nil
 	case "ifaceOf":
 		// ifaceOf(x): box a concrete value as interface
-		v, err := ex.coerceTo(env, args[0], tError)
+		v, err := ex.coerceTo(env, args[0], SType{G: universeTypes["any"]})
 		return v, err
 	case "emptySet":
 		return SV{}, env.errf(e, "emptySet needs a type; use setEmpty$T via spec func")
